@@ -47,6 +47,11 @@ type script struct {
 	//   late-setheader   the server calls SetHeader again after SendHeader (refused by gRPC, never delivered)
 	//   closesend-twice  the client half-closes twice
 	//   respond-then     a client-streaming handler sends its response, then sets a trailer and returns its final result
+	//   busy-handler     the caller gives up while the handler is busy with something that does not watch the call's
+	//                    context (it waits for a gate the caller opens only AFTER it has its own outcome): the caller
+	//                    hears of its cancellation / deadline at once, not when the handler gets round to answering
+	//   giveup           the caller gives up (deadline / cancel) while the handler, which has set headers and trailers,
+	//                    is still waiting: headers never sent and trailers never reach a caller that left first
 	Quirk string
 }
 
@@ -131,6 +136,14 @@ func (s *server) meta(ctx context.Context, sc script, stream grpc.ServerStream) 
 			grpc.SetHeader(ctx, saw)
 		}
 	}
+	if sc.Quirk == "bad-header-key" && stream != nil {
+		// metadata no connection carries (an MD literal keeps its capitals; a value with a control character):
+		// the stream refuses it with a status and nothing of it reaches the client
+		e1 := stream.SetHeader(metadata.MD{"X-Mixed": {"v"}, "x-fine": {"v"}})
+		e2 := stream.SetHeader(metadata.MD{"x-ctl": {"a\x01b"}})
+		e3 := stream.SetHeader(metadata.MD{"x-ctl-bin": {"a\x01b"}})
+		s.saw(fmt.Sprintf("setheader: mixed-case=%v control-char=%v control-char-bin=%v", status.Code(e1), status.Code(e2), status.Code(e3)))
+	}
 	if sc.Trailer {
 		if stream != nil {
 			stream.SetTrailer(trlMD)
@@ -160,6 +173,10 @@ func (s *server) Unary(ctx context.Context, req *tp.UnaryRequest) (*tp.UnaryResp
 		// work tied to the call: it ends when the call's context does, and that ends with the call
 		go func() { <-ctx.Done() }()
 	}
+	if sc.Quirk == "busy-handler" {
+		<-busyGate
+		return nil, ctx.Err()
+	}
 	if err := sc.finalErr(); err != nil {
 		return nil, err
 	}
@@ -182,6 +199,10 @@ func (s *server) ServerStream(req *tp.ServerStreamRequest, stream grpc.ServerStr
 			return err
 		}
 		m.Counter = -99 // scribble: the client's copy must not change
+	}
+	if sc.Quirk == "busy-handler" {
+		<-busyGate
+		return stream.Context().Err()
 	}
 	if sc.Client != "normal" && sc.ClientAt >= sc.N {
 		// the client will cancel / time out while we have nothing more to send: wait for it
@@ -287,8 +308,14 @@ type ctxMaker func() (context.Context, context.CancelFunc, func())
 
 // runClient drives one call and returns the client-visible transcript. expire() makes the
 // deadline pass (virtual in the explored run, real in the reference run).
+var busyGate chan struct{} // quirk busy-handler: what the handler waits for; opened when the client is done
+
 func runClient(c tp.TestApiClient, sc script, mkCtx func(deadline bool) (context.Context, context.CancelFunc), waitDeadline func(ctx context.Context)) []string {
 	var tr []string
+	if sc.Quirk == "busy-handler" {
+		busyGate = make(chan struct{})
+		defer close(busyGate)
+	}
 	strictOutcome = sc.Client == "normal"
 	ctx, cancel := mkCtx(sc.Client == "deadline")
 	defer cancel()
@@ -314,7 +341,7 @@ func runClient(c tp.TestApiClient, sc script, mkCtx func(deadline bool) (context
 	switch sc.Shape {
 	case "unary":
 		var h, t metadata.MD
-		if sc.Client != "normal" {
+		if sc.Client != "normal" && sc.Quirk != "busy-handler" {
 			stop(0)
 		}
 		req := &tp.UnaryRequest{Msg: "ping"}
@@ -324,7 +351,7 @@ func runClient(c tp.TestApiClient, sc script, mkCtx func(deadline bool) (context
 		resp, err := c.Unary(ctx, req, grpc.Header(&h), grpc.Trailer(&t))
 		req.Msg = "scribbled"
 		tr = append(tr, "resp="+resp.GetMsg(), "err="+outcome(err))
-		if err == nil || sc.Client == "normal" {
+		if err == nil || sc.Client == "normal" || sc.Quirk == "busy-handler" {
 			tr = append(tr, "header="+userMD(h), "trailer="+userMD(t))
 		}
 	case "sstream":
@@ -350,6 +377,14 @@ func runClient(c tp.TestApiClient, sc script, mkCtx func(deadline bool) (context
 			if stop(n) {
 				_, err := stream.Recv()
 				tr = append(tr, "err="+outcome(err))
+				// the caller left while the handler was waiting: what had been sent by then is all it has -
+				// the headers if a message came, never the trailers (they travel with the end of the call)
+				// (not after a deadline the handler watches too: over a connection both sides time out at the same
+				// moment, and whether the server's answer still makes it is a race there)
+				if sc.Client == "cancel" || sc.Quirk == "busy-handler" {
+					h, _ := stream.Header()
+					tr = append(tr, "header-after-giving-up="+userMD(h), "trailer-after-giving-up="+userMD(stream.Trailer()))
+				}
 				return tr
 			}
 			m, err := stream.Recv()
@@ -372,6 +407,15 @@ func runClient(c tp.TestApiClient, sc script, mkCtx func(deadline bool) (context
 			tr = append(tr, "header="+userMD(h))
 		}
 		tr = append(tr, "trailer="+userMD(stream.Trailer()))
+		// what Header and Trailer hand out is the caller's own: writing on it does not show in the next call
+		if h1, _ := stream.Header(); h1 != nil {
+			h1.Set("x-h", "scribbled")
+		}
+		if t1 := stream.Trailer(); t1 != nil {
+			t1.Set("x-t", "scribbled")
+		}
+		h2, _ := stream.Header()
+		tr = append(tr, "header-again="+userMD(h2), "trailer-again="+userMD(stream.Trailer()))
 	case "cstream":
 		stream, err := c.ClientStream(ctx)
 		if err != nil {
@@ -384,6 +428,9 @@ func runClient(c tp.TestApiClient, sc script, mkCtx func(deadline bool) (context
 				break
 			}
 			m.Msg = "scribbled"
+		}
+		if sc.Quirk == "giveup" {
+			cancel()
 		}
 		resp, err := stream.CloseAndRecv()
 		tr = append(tr, "resp="+resp.GetMsg(), "err="+outcome(err))
@@ -399,7 +446,8 @@ func runClient(c tp.TestApiClient, sc script, mkCtx func(deadline bool) (context
 			if stop(n) {
 				_, err := stream.Recv()
 				tr = append(tr, "err="+outcome(err))
-				return tr
+				h, _ := stream.Header()
+				return append(tr, "header-after-giving-up="+userMD(h), "trailer-after-giving-up="+userMD(stream.Trailer()))
 			}
 			if sc.ErrAfter >= 0 && n >= sc.ErrAfter {
 				break // the server is about to finish: a further send would race with it
@@ -545,6 +593,10 @@ func scripts(thorough bool) []script {
 				// leaves a server send without a receiver, i.e. relies on transport buffering
 				out = append(out, script{Shape: "sstream", HeaderMode: hm, N: n, Final: "ok", ErrAfter: -1, Client: "cancel", ClientAt: n})
 				out = append(out, script{Shape: "sstream", HeaderMode: hm, N: n, Final: "ok", ErrAfter: -1, Client: "deadline", ClientAt: n})
+				if hm == "set" {
+					out = append(out, script{Shape: "sstream", HeaderMode: hm, Trailer: true, N: n, Final: "ok", ErrAfter: -1, Client: "cancel", ClientAt: n})
+					out = append(out, script{Shape: "sstream", HeaderMode: hm, Trailer: true, N: n, Final: "ok", ErrAfter: -1, Client: "deadline", ClientAt: n})
+				}
 			}
 		}
 	}
@@ -570,6 +622,11 @@ func scripts(thorough bool) []script {
 			if hm == "none" {
 				for at := 0; at < n; at++ {
 					out = append(out, script{Shape: "bidi", HeaderMode: hm, N: n, Final: "ok", ErrAfter: -1, Client: "cancel", ClientAt: at})
+				}
+			}
+			if hm == "set" {
+				for at := 0; at < n; at++ {
+					out = append(out, script{Shape: "bidi", HeaderMode: hm, Trailer: true, N: n, Final: "ok", ErrAfter: -1, Client: "cancel", ClientAt: at})
 				}
 			}
 		}
@@ -603,6 +660,20 @@ func scripts(thorough bool) []script {
 	for _, shape := range []string{"unary", "sstream", "cstream", "bidi"} {
 		for _, f := range []string{"ok", "status"} {
 			out = append(out, script{Shape: shape, HeaderMode: "set", Trailer: true, N: 1, Final: f, ErrAfter: -1, Client: "normal", Quirk: "trailer-twice"})
+		}
+	}
+	for _, shape := range []string{"sstream", "cstream", "bidi"} {
+		out = append(out, script{Shape: shape, HeaderMode: "set", Trailer: true, N: 1, Final: "ok", ErrAfter: -1, Client: "normal", Quirk: "bad-header-key"})
+	}
+	for n := 0; n <= 1; n++ {
+		out = append(out, script{Shape: "cstream", HeaderMode: "set", Trailer: true, N: n, Final: "ok", ErrAfter: -1, Client: "cancel", Quirk: "giveup"})
+	}
+	for _, hm := range []string{"set", "send"} {
+		out = append(out, script{Shape: "unary", HeaderMode: hm, Trailer: true, Final: "ok", ErrAfter: -1, Client: "deadline", Quirk: "busy-handler"})
+	}
+	for n := 0; n <= 1; n++ {
+		for _, cl := range []string{"cancel", "deadline"} {
+			out = append(out, script{Shape: "sstream", HeaderMode: "set", Trailer: true, N: n, Final: "ok", ErrAfter: -1, Client: cl, ClientAt: n, Quirk: "busy-handler"})
 		}
 	}
 	for _, q := range []string{"md-incoming", "md-outgoing", "md-both"} {
